@@ -1,5 +1,6 @@
 import Pike.Lemmas.SysStore
 import Pike.Props.C01
+import Pike.Props.C03
 /-
 C04 — a stored response is never served past its freshness lifetime.
 "Obtained" is the instant the entry became a hit (`createdAt`, the `complete` step).
@@ -9,6 +10,18 @@ namespace C04
 open Sys Entry
 
 theorem facts_ok : Facts.waiterRereadsEntry = false := C01.facts_handover.1
+
+/-- The lifetime T an entry is stored with is the freshness the origin declared (s-maxage, else
+max-age) minus the Age the response already had when pike obtained it — for the header-reading
+code the source has today (`Fresh.cfgOfFacts`, regenerated), restated from C03. -/
+theorem stored_lifetime_is_remaining_freshness {c : Fresh.Cfg} (hc : Fresh.cfgOfFacts = some c)
+    (method : Str) (f r : Bool) (h : Header) (T : Int)
+    (hs : Fresh.storeDecision c method f r h = some T) : T = Spec.C03.lifetime h ∧ 0 < T := by
+  have := C03.stored_imp_shareable hc method f r h T hs
+  unfold Spec.C03.shareableOK at this
+  simp only [Bool.and_eq_true, decide_eq_true_eq] at this
+  exact ⟨this.2, this.1.2⟩
+
 
 /-- FULL STATEMENT (lookups).  With a store that never returns data that was not written to it
 (it may fail or lose data at will), in every state reachable by any schedule — concurrent or
